@@ -18,6 +18,8 @@ structure Cfg where
   workCap  : Nat              -- capacity of the work queue (`Queue(workers)` / `Queue(cpu_count())`), > 0
   mulP     : Bool             -- true: `mul_p_map` (fresh workers per call, stop orders before the final drain, final sort)
   calls    : List Nat         -- chunks per call (`mul_p_map`: items per call)
+  exact    : Bool := false    -- `FunctorMap` only: the caller takes exactly as many results as there are items and closes the
+                              -- generator at its last `yield` (zip / islice style) instead of running it into `StopIteration`
   deriving Repr
 
 inductive PPc
@@ -134,7 +136,11 @@ def stepP (s : St) : Option St :=
     else some { s with workQ := s.workQ ++ [some s.next], dataCnt := s.dataCnt + 1, ppc := .nowait }
   | .nowait =>
     match s.resQ with
-    | i :: r => some (receive { s with resQ := r } i)      -- stays in the `while True` loop
+    | i :: r =>
+      let s' := receive { s with resQ := r } i
+      -- stays in the `while True` loop — unless the caller has just been handed the last item of the call and closes the
+      -- generator there (`exact`): the next visible operation is then the first one of the next call
+      if s.cfg.exact ∧ ¬ s.cfg.mulP ∧ s'.finished = s'.total then some (startCall s') else some s'
     | [] =>
       -- `queue.Empty`: next chunk (thread-local pull), or done feeding
       if s.next + 1 < s.total then some { s with next := s.next + 1, ppc := .put }
